@@ -62,10 +62,24 @@ def gen_cases(tier, seed):
     exprs += [(t, "2021-03-10T12:43") for t in extra]
     for _ in range(4000 if tier == "thorough" else 500):
         exprs.append((G.expression(r)[1], r.choice(["2021-03-10T12:43", "2024-02-29T23:59", "2019-12-31T00:00"])))
-    variants = ["upper", "lower", "title", "seps", "brackets", "dashes", "lead-trail", "mixed"]
+    # clock notations with letters (am/pm, uhr, h, o'clock), named hours, months, weekdays: the places where case could matter
+    for cn, (fn, fl) in G.CLOCK.items():
+        for h in (0, 1, 11, 12, 13, 23):
+            for mi in (0, 30):
+                t = fn(h, mi)
+                if t and any(ch.isalpha() for ch in t) and not (fl.get("exclude") and fl["exclude"](h, mi)):
+                    exprs.append((t, "2021-03-10T12:43"))
+                    exprs.append(("tomorrow at " + t, "2021-03-10T12:43"))
+    for w in G.HOUR_EN + G.HOUR_DE + G.MIDNIGHT + G.MONTH_EN + G.MONTH_DE + G.DOW_FULL_EN + G.DOW_FULL_DE + list(G.POD_FORMS)[:30]:
+        exprs.append((w, "2021-03-10T12:43"))
+    variants = ["upper", "lower", "title", "seps", "brackets", "dashes", "lead-trail", "mixed", "swapcase"]
     per = len(variants) if tier == "thorough" else 3
     for i, (t, ts) in enumerate(exprs):
-        for v in (variants if tier == "thorough" else r.sample(variants, per)):
+        letters = any(ch.isalpha() for ch in t)
+        vs = variants if tier == "thorough" else (r.sample(variants, per) if i < len(corpus) * 4 else ["upper", "title", "swapcase", "seps"])
+        for v in vs:
+            if v in ("upper", "lower", "title", "swapcase") and not letters:
+                continue
             for rep in range(3 if (tier == "thorough" and v in ("seps", "mixed")) else 1):
                 cases.append({"k": "api", "t": t, "ts": ts, "v": v, "rep": rep})
     return cases
@@ -79,6 +93,8 @@ def _variant(r, t, v):
         return t.lower()
     if v == "title":
         return t.title()
+    if v == "swapcase":
+        return t.title().swapcase()
     if v == "seps":
         return "".join((r.choice(pool) + (r.choice(pool) if r.random() < 0.3 else "")) if ch == " " else ch for ch in t)
     if v == "brackets":
